@@ -19,7 +19,7 @@ P_MAXIT = 60  # keeps accidental feedback loops cheap
 
 class Node:
     __slots__ = ("key", "id", "kind", "parent", "children", "initial", "hist",
-                 "hist_default", "custom_id", "depth", "index", "output")
+                 "hist_default", "custom_id", "depth", "index", "output", "dup_keys")
 
     def __init__(self, key: str, kind: str, parent: Optional["Node"]):
         self.key = key
@@ -177,10 +177,17 @@ def profile(name: str, **over) -> Dict[str, Any]:
 def gen_tree(rng: random.Random, P: Dict[str, Any]) -> Tree:
     counter = [0]
 
-    def newkey():
-        k = f"s{counter[0]}"
+    p_dup = P.get("p_dup_key", 0.0)
+
+    def newkey(parent=None):
         counter[0] += 1
-        return k
+        if parent is not None and p_dup and rng.random() < p_dup:
+            # local names are only unique among siblings: reuse a few names across parents
+            used = {c.key for c in parent.children}
+            free = [k for k in ("d0", "d1", "d2", "d3") if k not in used]
+            if free:
+                return rng.choice(free)
+        return f"s{counter[0] - 1}"
 
     root_kind = "parallel" if rng.random() < P["p_parallel_root"] else "compound"
     root = Node(MID, root_kind, None)
@@ -202,7 +209,7 @@ def gen_tree(rng: random.Random, P: Dict[str, Any]) -> Tree:
                 kind = "final"
             else:
                 kind = "atomic"
-            c = Node(newkey(), kind, node)
+            c = Node(newkey(node), kind, node)
             node.children.append(c)
             if kind in ("compound", "parallel"):
                 populate(c)
@@ -230,6 +237,7 @@ def gen_tree(rng: random.Random, P: Dict[str, Any]) -> Tree:
             node.children.append(h)
 
     populate(root)
+    root.dup_keys = bool(p_dup)
     tree = Tree(root)
     # history defaults + custom ids
     for n in tree.order:
@@ -241,7 +249,7 @@ def gen_tree(rng: random.Random, P: Dict[str, Any]) -> Tree:
                 deeper = [d for d in s.subtree() if d.kind != "history"]
                 n.hist_default = rng.choice(deeper) if rng.random() < 0.3 else s
         if n is not root and n.kind != "history" and rng.random() < P["p_custom_id"]:
-            n.custom_id = f"cid_{n.key}"
+            n.custom_id = f"cid_{n.key}" if not p_dup else f"cid_{n.index}_{n.key}"
     return tree
 
 
@@ -278,6 +286,12 @@ def spellings(source: Node, target: Node) -> Dict[str, str]:
 def spell(rng: random.Random, source: Node, target: Node) -> str:
     sp = spellings(source, target)
     kinds = sorted(sp)
+    top = source
+    while top.parent is not None:
+        top = top.parent
+    if getattr(top, "dup_keys", False):
+        # with local names reused across parents only id-anchored spellings are unambiguous
+        kinds = [k for k in kinds if k in ("abs", "cid", "cidpath")]
     # prefer variety but weight bare/abs
     k = rng.choice(kinds)
     return sp[k]
